@@ -196,7 +196,11 @@ def build(c, arrs, extra=None):
         return C(m=abs(a[0]) + 0.1, r=a[1:4])
     if c == 'DualQuaternion':
         a = arrs[0]
-        return C(sm.Quaternion(np.r_[a[:3], 1.0]), sm.Quaternion(np.r_[a[3:], 2.0]))
+        # a general dual quaternion may well have a real part that happens to be stored as a UnitQuaternion (e.g. Pure())
+        if a[0] > 0 and a[1] > 0:
+            return C.Pure(a[:3])
+        real = sm.UnitQuaternion(np.r_[a[:3], 1.0]) if a[0] > 0 else sm.Quaternion(np.r_[a[:3], 1.0])
+        return C(real, sm.Quaternion(np.r_[a[3:], 2.0]))
     if c == 'UnitDualQuaternion':
         a = arrs[0]
         return C(sm.SE3(ref.rt2tr(ref.rot(a[3:], 0.7), a[:3])))
@@ -290,7 +294,7 @@ def run_cell(ctx, p):
     lb = 'M' if (R in CLASSES and hasattr(b, 'data') and isinstance(b.data, list) and len(b.data) > 1) else '1'
     sig = dict(left=L, right=R, op=op, lens=la + 'x' + lb)
     cellkey = (L, R, op, la + lb)
-    if L == R and L in SV and op in ('add', 'sub') and la != lb:
+    if L == R and L in SV and op in ('add', 'sub', 'iadd', 'isub') and la != lb:
         exp = ('raise',)            # spatial vectors of unequal length must be rejected (C20)
     if (L in ('SpatialInertia',) or (L == 'SE3' and (R in SV or R == 'Plucker'))) and (la == 'M' or lb == 'M') and exp[0] == 'class':
         exp = ('unjudged', 'sequence operands of this pair are not documented')
